@@ -592,7 +592,14 @@ func setConv(dst reflect.Value, x interface{}) {
 // ---- canonical representation of observed values -------------------------
 
 // FmtNum is the canonical number format of the harness.
-func FmtNum(f float64) string { return strconv.FormatFloat(f, 'g', -1, 64) }
+func FmtNum(f float64) string {
+	// (integral values positionally, whichever Go kind carried them: an int
+	// of a million and a float64 of a million are the same number)
+	if f == math.Trunc(f) && math.Abs(f) < 1e15 {
+		return strconv.FormatFloat(f, 'f', -1, 64)
+	}
+	return strconv.FormatFloat(f, 'g', -1, 64)
+}
 
 // Repr renders any value observed in a callback in the harness' canonical
 // form. Go carrier kinds are deliberately erased (every number is a number).
